@@ -21,7 +21,7 @@ DECIDING = ["C20.grid_roundtrip", "C20.energy_table", "C20.energy_column"]
 RULE = ("grid round trips: FullGrid specifications from a box of small sizes (n_b in {1,2,3,4,5,8}, n_o in {1,2,3,4,7,12}, n_t in {1,2,3}, both "
         "position modes, several factors), five files each, including re-saving a different grid under the same file names and reading again; "
         "energy tables: generated xvg files with 0-13 '#' lines, '@' filler lines before/after the legends to reach >=13 header lines, 1-10 "
-        "legends (spaces, brackets, '@', '#', commas, s10-lookalikes, at most one empty), 1-2000 rows, values written %.6f / %g / repr, "
+        "legends (spaces, brackets, '@', '#', commas, s10-lookalikes, prefixes of each other, at most one empty), 1-2000 rows (some lines repeated verbatim), values written %.6f / %g / repr, "
         "GROMACS-style right-aligned columns; csv round trip of the loaded frame. Non-trivial = grid with >=2 cells / table with >=2 series or "
         ">=2 rows; distinct by grid spec / by file digest")
 ASSUMPTIONS = ["npy/npz comparisons are bit-exact (format, index arrays, data)",
@@ -232,7 +232,7 @@ def run_grids(io, spec):
         shutil.rmtree(d, ignore_errors=True)
 
 
-LEGEND_WORDS = ["Potential", "LJ (SR)", "Coulomb (SR)", "Disper. corr.", "Pres. DC (bar)", "Coul. SR @ 1.2 nm", "Kinetic En.",
+LEGEND_WORDS = ["Coul-SR:SOL_ION-SOL_ION", "Coul-SR:SOL_ION-SOL", "Coul-SR", "Pot", "Potential", "LJ (SR)", "Coulomb (SR)", "Disper. corr.", "Pres. DC (bar)", "Coul. SR @ 1.2 nm", "Kinetic En.",
                 "s10 legend", "legend s1", "# of contacts", "E[kJ/mol]", "a,b", "Total Energy", "T-rest", "Box-X", " padded ",
                 "x" * 40, "s9", "Time"]
 
@@ -268,6 +268,13 @@ def make_xvg(rng, nprng, path):
     scale = rng.choice([1.0, 1e3, 1e-3, 1e6])
     vals = nprng.normal(0, scale, size=(n_rows, n_leg))
     times = np.arange(n_rows) * rng.choice([1.0, 0.5, 2.0, 10.0])
+    if rng.random() < 0.2 and n_rows >= 2:
+        # reruns and checkpoint seams write the same frame twice: identical data lines are still one row each
+        k = rng.randrange(n_rows - 1)
+        vals[k + 1] = vals[k]
+        times[k + 1] = times[k]
+        if rng.random() < 0.3:
+            times[:] = 0.0
     truth = np.zeros((n_rows, n_leg + 1))
     width = rng.choice([0, 12, 16])
     for r in range(n_rows):
